@@ -1,10 +1,10 @@
 (* C06 — Change order is a function of the change set; incremental equals rebuilt.
    Only property theorems (closed by [exact]), non-vacuity examples and Print Assumptions.
    Model: Lib/Dag.v, Model/Dfs.v, Model/Tree.v; proofs: Proofs/DfsBase.v, Proofs/TreeInc.v, Proofs/DfsTopo.v, Proofs/TreeTopo.v, Proofs/DfsStable.v,
-   Proofs/TreeAppend.v. *)
+   Proofs/TreeAppend.v; rejected batches: Model/TreeReject.v, Proofs/TreeReject.v. *)
 From Coq Require Import List NArith Bool Arith Permutation.
 Import ListNotations.
-From AnySync Require Import Lib.Dag Model.Dfs Model.Tree Proofs.DfsBase Proofs.TreeInc Proofs.DfsTopo Proofs.TreeTopo Proofs.DfsStable Proofs.TreeAppend.
+From AnySync Require Import Lib.Dag Model.Dfs Model.Tree Model.TreeReject Proofs.DfsBase Proofs.TreeInc Proofs.DfsTopo Proofs.TreeTopo Proofs.DfsStable Proofs.TreeAppend Proofs.TreeReject.
 Open Scope N_scope.
 
 (* The canonical order (reverse post-order of the topSort DFS over id-sorted Next lists) is defined for every
@@ -235,4 +235,35 @@ Example c06_nonvacuous_modes :
   snd (fst (tree_add (run_ops [OpAdd [g_root; g_a]]) [mkChange 2 [9] 5 false])) = Append /\
   snd (fst (tree_add (run_ops [OpAdd [g_root; g_a]]) [g_b])) = Rebuild /\
   snd (fst (tree_add (run_ops [OpAdd [g_root; g_a]]) [g_a])) = Nothing.
+Proof. vm_compute. repeat split. Qed.
+
+(* Rejected batches (Model/TreeReject.v: the rollback closure of addChangesToTree).  FULL statement: on every tree
+   reached by Add / AddFast calls, for every batch, rolling back what Tree.Add attached restores the attached set, the
+   root, the heads, lastIteratedHeadId and the presented sequence.  PROVED PART: the same under the visible hypothesis
+   that the ids Tree.Add reports as added are exactly the ids of the changes it attached (MISSING: that fact about
+   [add_all]/[attach]; Proofs/TreeAppend.v records only the length of the added list).  The order-preserving filter of
+   the Next lists is what makes it true: they stay the canonical sorted lists of the restored set. *)
+Theorem c06_rejected_unchanged_partial : forall ops cs t1 m added,
+  t_att (run_ops ops) <> [] ->
+  tree_add (run_ops ops) cs = (t1, m, added) ->
+  (forall Nw, t_att t1 = Nw ++ t_att (run_ops ops) -> forall i, mem i added = has_change Nw i) ->
+  let t := run_ops ops in
+  let tr := rollback t t1 added in
+  t_att tr = t_att t /\ t_root tr = t_root t /\ t_heads tr = t_heads t /\ t_last tr = t_last t /\
+  iter_ids tr = iter_ids t.
+Proof. exact rollback_unchanged_partial. Qed.
+Print Assumptions c06_rejected_unchanged_partial.
+
+(* root 1 with the branches 3 - 4 and 5; the invalid change 2 (a child of 1 sorting before both siblings) is attached
+   by Tree.Add and the batch is rejected: same sequence, same heads, nothing stored; a later valid change 6 on top of
+   the heads is appended *)
+Example c06_nonvacuous_rejected :
+  let c1 := mkChange 1 [] 0 true in let c3 := mkChange 3 [1] 1 false in let c5 := mkChange 5 [1] 1 false in
+  let c4 := mkChange 4 [3] 1 false in let c2 := mkChange 2 [1] 1 false in let c6 := mkChange 6 [4; 5] 1 false in
+  let o1 := fst (ot_add_raw_v [2] (ot_init c1) [c3; c5; c4] [1]) in
+  let r2 := ot_add_raw_v [2] o1 [c2] [1] in
+  let r3 := ot_add_raw_v [2] (fst r2) [c6] [1] in
+  iter_ids (o_tree o1) = [1; 3; 4; 5] /\ snd r2 = AddErr /\
+  iter_ids (o_tree (fst r2)) = [1; 3; 4; 5] /\ t_heads (o_tree (fst r2)) = [4; 5] /\ stored_seq (fst r2) = [1; 3; 4; 5] /\
+  snd r3 = AddOk Append [6] /\ iter_ids (o_tree (fst r3)) = [1; 3; 4; 5; 6].
 Proof. vm_compute. repeat split. Qed.
